@@ -565,3 +565,220 @@ pub fn proc_invariants(ev: &mut Eval, case: &ProcCase, o: &ProcOutcome) -> bool 
 pub fn flush_stdout_note() {
 	let _ = std::io::stdout().flush();
 }
+
+
+// ------------------------------------------------------------------ fidelity runs (the real thing instead of the stub)
+
+/// What replaces the interposer in a fidelity run.
+pub enum Real {
+	/// stdout is a real pipe whose reader takes `k` bytes and then closes.
+	ClosingPipe(usize),
+	/// stdout is /dev/full.
+	DevFull,
+	/// stdout is a real pseudo-terminal.
+	Pty,
+	/// The named input file is a real FIFO fed by a writer thread in pieces of `chunk` bytes.
+	Fifo(String, usize),
+}
+
+fn prepare(case: &ProcCase, tag: &str) -> Option<(String, String)> {
+	let seq = RUN_SEQ.with(|s| {
+		*s.borrow_mut() += 1;
+		*s.borrow()
+	});
+	let dir = format!("{BUILD_DIR}/runs/{}-{tag}-{}", std::process::id(), seq % 4);
+	let _ = std::fs::remove_dir_all(&dir);
+	let work = format!("{dir}/w");
+	std::fs::create_dir_all(&work).ok()?;
+	for f in &case.files {
+		let path = format!("{work}/{}", f.name);
+		if let Some(parent) = std::path::Path::new(&path).parent() {
+			let _ = std::fs::create_dir_all(parent);
+		}
+		match f.kind.as_str() {
+			"dir" => {
+				let _ = std::fs::create_dir_all(&path);
+			}
+			"missing" => {}
+			_ => std::fs::write(&path, &f.bytes).ok()?,
+		}
+	}
+	std::fs::write(format!("{dir}/stdin.bin"), case.stdin.as_deref().unwrap_or(&[])).ok()?;
+	Some((dir, work))
+}
+
+/// Runs the case against the real kernel objects (no interposer).
+pub fn run_real(case: &ProcCase, real: &Real) -> ProcOutcome {
+	use std::io::Read;
+	use std::os::fd::{FromRawFd, OwnedFd};
+	let Some((dir, work)) = prepare(case, "real") else {
+		return ProcOutcome { spawn_error: Some("cannot prepare run directory".into()), ..Default::default() };
+	};
+	let err_path = format!("{dir}/stderr.bin");
+	let out_path = format!("{dir}/stdout.bin");
+	let mut cmd = Command::new(bin_path(&case.bin));
+	cmd.arg0("xt").args(&case.args).current_dir(&work).env_clear().env("LC_ALL", "C");
+	let Ok(fe) = std::fs::File::create(&err_path) else { return ProcOutcome { spawn_error: Some("stderr file".into()), ..Default::default() } };
+	let Ok(fi) = std::fs::File::open(format!("{dir}/stdin.bin")) else { return ProcOutcome { spawn_error: Some("stdin file".into()), ..Default::default() } };
+	cmd.stdin(Stdio::from(fi)).stderr(Stdio::from(fe));
+	let mut master: Option<std::fs::File> = None;
+	let mut fifo_writer: Option<std::thread::JoinHandle<()>> = None;
+	let mut fifo_stop: Option<std::sync::Arc<std::sync::atomic::AtomicBool>> = None;
+	match real {
+		Real::ClosingPipe(_) => {
+			cmd.stdout(Stdio::piped());
+		}
+		Real::DevFull => {
+			let Ok(f) = std::fs::OpenOptions::new().write(true).open("/dev/full") else { return ProcOutcome { spawn_error: Some("/dev/full".into()), ..Default::default() } };
+			cmd.stdout(Stdio::from(f));
+		}
+		Real::Pty => {
+			// SAFETY: plain libc calls on fds we own.
+			unsafe {
+				let m = libc::posix_openpt(libc::O_RDWR | libc::O_NOCTTY);
+				if m < 0 || libc::grantpt(m) != 0 || libc::unlockpt(m) != 0 {
+					return ProcOutcome { spawn_error: Some("posix_openpt failed".into()), ..Default::default() };
+				}
+				let mut name = [0 as libc::c_char; 128];
+				if libc::ptsname_r(m, name.as_mut_ptr(), name.len()) != 0 {
+					return ProcOutcome { spawn_error: Some("ptsname_r failed".into()), ..Default::default() };
+				}
+				let s = libc::open(name.as_ptr(), libc::O_RDWR | libc::O_NOCTTY);
+				if s < 0 {
+					return ProcOutcome { spawn_error: Some("cannot open pty slave".into()), ..Default::default() };
+				}
+				cmd.stdout(Stdio::from(OwnedFd::from_raw_fd(s)));
+				master = Some(std::fs::File::from_raw_fd(m));
+			}
+		}
+		Real::Fifo(name, chunk) => {
+			let path = format!("{work}/{name}");
+			let _ = std::fs::remove_file(&path);
+			let Ok(cpath) = std::ffi::CString::new(path.clone()) else { return ProcOutcome { spawn_error: Some("fifo path".into()), ..Default::default() } };
+			// SAFETY: valid NUL-terminated path.
+			if unsafe { libc::mkfifo(cpath.as_ptr(), 0o600) } != 0 {
+				return ProcOutcome { spawn_error: Some("mkfifo failed".into()), ..Default::default() };
+			}
+			let bytes = case.files.iter().find(|f| f.name == *name).map(|f| f.bytes.clone()).unwrap_or_default();
+			let chunk = (*chunk).max(1);
+			let stop = std::sync::Arc::new(std::sync::atomic::AtomicBool::new(false));
+			fifo_stop = Some(stop.clone());
+			fifo_writer = Some(std::thread::spawn(move || {
+				use std::os::unix::fs::OpenOptionsExt;
+				// Opening a FIFO for writing blocks until a reader exists; xt may never open it
+				// (usage error, earlier failure), so poll without blocking until told to stop.
+				let mut w = loop {
+					match std::fs::OpenOptions::new().write(true).custom_flags(libc::O_NONBLOCK).open(&path) {
+						Ok(f) => break f,
+						Err(_) => {
+							if stop.load(std::sync::atomic::Ordering::SeqCst) {
+								return;
+							}
+							std::thread::sleep(Duration::from_micros(300));
+						}
+					}
+				};
+				let mut rest: &[u8] = &bytes;
+				let mut piece_left = chunk.min(rest.len());
+				while !rest.is_empty() {
+					match w.write(&rest[..piece_left.max(1).min(rest.len())]) {
+						Ok(n) => {
+							rest = &rest[n..];
+							piece_left = if piece_left > n { piece_left - n } else { chunk };
+						}
+						Err(e) if e.kind() == std::io::ErrorKind::WouldBlock => {
+							if stop.load(std::sync::atomic::Ordering::SeqCst) {
+								return;
+							}
+							std::thread::sleep(Duration::from_micros(200));
+						}
+						Err(_) => return, // reader went away
+					}
+				}
+			}));
+			let Ok(fo) = std::fs::File::create(&out_path) else { return ProcOutcome { spawn_error: Some("stdout file".into()), ..Default::default() } };
+			cmd.stdout(Stdio::from(fo));
+		}
+	}
+	// SAFETY: only async-signal-safe libc calls between fork and exec.
+	unsafe {
+		cmd.pre_exec(|| {
+			let lim = libc::rlimit { rlim_cur: 8 << 20, rlim_max: 8 << 20 };
+			libc::setrlimit(libc::RLIMIT_STACK, &lim);
+			let core = libc::rlimit { rlim_cur: 0, rlim_max: 0 };
+			libc::setrlimit(libc::RLIMIT_CORE, &core);
+			Ok(())
+		});
+	}
+	let mut child = match cmd.spawn() {
+		Ok(c) => c,
+		Err(e) => return ProcOutcome { spawn_error: Some(format!("spawn: {e}")), ..Default::default() },
+	};
+	drop(cmd); // closes our copies of the child's stdio (pty slave)
+	let mut out = ProcOutcome::default();
+	if let Real::ClosingPipe(k) = real {
+		if let Some(mut so) = child.stdout.take() {
+			let mut buf = vec![0u8; *k];
+			let mut got = 0;
+			while got < *k {
+				match so.read(&mut buf[got..]) {
+					Ok(0) | Err(_) => break,
+					Ok(n) => got += n,
+				}
+			}
+			buf.truncate(got);
+			out.stdout = buf;
+			drop(so); // the consumer goes away
+		}
+	}
+	let mut pty_reader = master.map(|mut m| {
+		std::thread::spawn(move || {
+			let mut all = vec![];
+			let mut buf = [0u8; 4096];
+			loop {
+				match m.read(&mut buf) {
+					Ok(0) | Err(_) => break,
+					Ok(n) => all.extend_from_slice(&buf[..n]),
+				}
+			}
+			all
+		})
+	});
+	let t0 = Instant::now();
+	loop {
+		match child.try_wait() {
+			Ok(Some(st)) => {
+				out.code = st.code();
+				out.signal = st.signal();
+				break;
+			}
+			Ok(None) => {
+				if t0.elapsed() > Duration::from_secs(60) {
+					let _ = child.kill();
+					let _ = child.wait();
+					out.timeout = true;
+					break;
+				}
+				std::thread::sleep(Duration::from_micros(500));
+			}
+			Err(e) => {
+				out.spawn_error = Some(format!("wait: {e}"));
+				break;
+			}
+		}
+	}
+	if let Some(st) = &fifo_stop {
+		st.store(true, std::sync::atomic::Ordering::SeqCst);
+	}
+	if let Some(h) = fifo_writer.take() {
+		let _ = h.join();
+	}
+	if let Some(h) = pty_reader.take() {
+		out.stdout = h.join().unwrap_or_default();
+	} else if !matches!(real, Real::ClosingPipe(_)) {
+		out.stdout = std::fs::read(&out_path).unwrap_or_default();
+	}
+	out.stderr = std::fs::read(&err_path).unwrap_or_default();
+	let _ = std::fs::remove_dir_all(&dir);
+	out
+}
